@@ -117,6 +117,9 @@ pub struct Shared {
     /// its 'exception in flight' flag set until the next catch (recorded finding E11); the finding
     /// manifests when another finally block then runs to its end in the same run
     pub e11_armed: Cell<bool>,
+    /// bytes of text produced so far by printing, interpolation and concatenation (a budget: programs
+    /// that format megabytes in a loop are declined, they are slow on both sides and show nothing new)
+    pub text_bytes: Cell<u64>,
     pub fibers: RefCell<Vec<Rc<FiberObj>>>,
     pub cells: RefCell<Vec<VCell>>,
     pub instances: RefCell<Vec<Rc<Instance>>>,
@@ -390,6 +393,16 @@ impl Ctx {
     }
 
     // ----- errors ------------------------------------------------------------------------
+
+    /// charge `n` bytes of produced text against the run's budget
+    pub fn charge_text(&self, n: usize) -> R<()> {
+        let t = self.sh.text_bytes.get() + n as u64;
+        self.sh.text_bytes.set(t);
+        if t > 6 << 20 {
+            return Err(Ctl::Discard("more than 6 MiB of text formatted"));
+        }
+        Ok(())
+    }
 
     pub fn make_error(&self, kind: EK) -> V {
         let class = self.sh.class(kind.class_name());
@@ -927,7 +940,10 @@ impl Ctx {
                         Part::Ex(x) => {
                             let v = self.eval(x, env, sc)?;
                             match display_checked(&v) {
-                                Some(t) => out.push_str(&t),
+                                Some(t) => {
+                                    self.charge_text(t.len())?;
+                                    out.push_str(&t)
+                                }
                                 None => return Err(Ctl::Discard("value prints to more than 64 KiB")),
                             }
                         }
@@ -1136,6 +1152,7 @@ impl Ctx {
                     if x.len() + y.len() > 1 << 16 {
                         return Err(Ctl::Discard("string larger than 64 KiB"));
                     }
+                    self.charge_text(x.len() + y.len())?;
                     let mut s = String::with_capacity(x.len() + y.len());
                     s.push_str(x);
                     s.push_str(y);
